@@ -1088,6 +1088,65 @@ def exhaustive_small_sets(ctx, g):
     ctx.case("exhaustive-small-sets", True)
 
 
+def whole_collection_arguments(ctx, g):
+    """'Move everything from there to here': a bulk operation is handed ANOTHER owner's live collection (or the receiver's own) as
+    its argument.  What the built-in does with a snapshot of the argument is what must happen: every element arrives (in order, for
+    the list), the other collection is left empty, nobody is lost or listed twice (the defect repaired by fix 2ca8079)."""
+    def modules_case(name, f):
+        ir1, ir2 = g.IR(), g.IR()
+        a = [g.Module(name="a%d" % i, ir=ir1) for i in range(4)]
+        b = [g.Module(name="b%d" % i, ir=ir2) for i in range(2)]
+        try:
+            want1, want2 = f(ir1, ir2, a, b)
+        except Exception as e:  # noqa: BLE001
+            ctx.add("oracle", "not-like-builtin:whole-collection", "ir.modules %s raised %s" % (name, exc_name(g, e)), {"call": name})
+            return
+        got1, got2 = [m.name for m in ir1.modules], [m.name for m in ir2.modules]
+        owners_ok = all(m.ir is ir1 for m in ir1.modules) and all(m.ir is ir2 for m in ir2.modules)
+        ctx.count("whole_collection_arguments")
+        ctx.case("whole-collection:modules:" + name, True)
+        if got1 != want1 or got2 != want2 or not owners_ok:
+            ctx.add("oracle", "not-like-builtin:whole-collection", "ir.modules %s: the lists are %s and %s, a snapshot of the argument gives %s and %s%s"
+                    % (name, got1, got2, want1, want2, "" if owners_ok else "; a listed module names another IR"), {"call": name})
+    A, B = ["a0", "a1", "a2", "a3"], ["b0", "b1"]
+    modules_case("ir2.modules.extend(ir1.modules)", lambda i1, i2, a, b: (i2.modules.extend(i1.modules), ([], B + A))[1])
+    modules_case("ir2.modules += ir1.modules", lambda i1, i2, a, b: (i2.modules.__iadd__(i1.modules), ([], B + A))[1])
+    modules_case("ir2.modules[1:1] = ir1.modules", lambda i1, i2, a, b: (i2.modules.__setitem__(slice(1, 1), i1.modules), ([], ["b0"] + A + ["b1"]))[1])
+    modules_case("ir2.modules[:] = ir1.modules", lambda i1, i2, a, b: (i2.modules.__setitem__(slice(None), i1.modules), ([], A))[1])
+    modules_case("ir1.modules.extend(ir1.modules)", lambda i1, i2, a, b: (i1.modules.extend(i1.modules), (A, B))[1])
+    modules_case("ir1.modules[:] = reversed(ir1.modules)", lambda i1, i2, a, b: (i1.modules.__setitem__(slice(None), reversed(i1.modules)), (A[::-1], B))[1])
+    modules_case("IR(modules=ir1.modules)", lambda i1, i2, a, b: (g.IR(modules=i1.modules), ([], B))[1])
+
+    def sets_case(name, f):
+        ir = g.IR()
+        m1, m2 = g.Module(name="m1", ir=ir), g.Module(name="m2", ir=ir)
+        s1 = [g.Section(name="s%d" % i, module=m1) for i in range(5)]
+        s2 = [g.Section(name="t%d" % i, module=m2) for i in range(2)]
+        y1 = [g.Symbol("y%d" % i, module=m1) for i in range(5)]
+        try:
+            want1, want2 = f(m1, m2)
+        except Exception as e:  # noqa: BLE001
+            ctx.add("oracle", "not-like-builtin:whole-collection", "%s raised %s" % (name, exc_name(g, e)), {"call": name})
+            return
+        got1 = sorted(x.name for x in list(m1.sections) + list(m1.symbols))
+        got2 = sorted(x.name for x in list(m2.sections) + list(m2.symbols))
+        owners_ok = all(x.module is m1 for x in list(m1.sections) + list(m1.symbols)) and all(x.module is m2 for x in list(m2.sections) + list(m2.symbols))
+        ctx.count("whole_collection_arguments")
+        ctx.case("whole-collection:sets:" + name, True)
+        if got1 != sorted(want1) or got2 != sorted(want2) or not owners_ok:
+            ctx.add("oracle", "not-like-builtin:whole-collection", "%s: the owners hold %s and %s, a snapshot of the argument gives %s and %s%s"
+                    % (name, got1, got2, sorted(want1), sorted(want2), "" if owners_ok else "; a member names another owner"), {"call": name})
+    S, T, Y = ["s%d" % i for i in range(5)], ["t0", "t1"], ["y%d" % i for i in range(5)]
+    sets_case("m2.sections.update(m1.sections)", lambda m1, m2: (m2.sections.update(m1.sections), (Y, T + S))[1])
+    sets_case("m2.sections |= m1.sections", lambda m1, m2: (m2.sections.__ior__(m1.sections), (Y, T + S))[1])
+    sets_case("m2.sections ^= m1.sections", lambda m1, m2: (m2.sections.__ixor__(m1.sections), (Y, T + S))[1])
+    sets_case("m2.sections.update(m1.sections, m1.sections)", lambda m1, m2: (m2.sections.update(m1.sections, m1.sections), (Y, T + S))[1])
+    sets_case("m2.symbols.update(m1.symbols)", lambda m1, m2: (m2.symbols.update(m1.symbols), (S, T + Y))[1])
+    sets_case("m1.sections |= m1.sections", lambda m1, m2: (m1.sections.__ior__(m1.sections), (S + Y, T))[1])
+    sets_case("m1.sections -= m1.sections", lambda m1, m2: (m1.sections.__isub__(m1.sections), (Y, T))[1])
+    sets_case("Module(sections=m1.sections)", lambda m1, m2: (g.Module(name="n", sections=m1.sections), (Y, T))[1])
+
+
 def d4_stream(ctx, g):
     """the recorded defect: assigning into ir.modules an element that is elsewhere in the same list, and reverse()"""
     for shape in ("setitem-same-list", "setslice-same-list", "setslice-repeated-value"):
@@ -1148,6 +1207,7 @@ def run(ctx):
         hists.append(h)
         ctx.case(repr(h.items), True)
     d4_stream(ctx, g)
+    whole_collection_arguments(ctx, g)
     # members replaced by their equal-UUID twins of another load through the list interface (item / slice assignment, append,
     # remove): contents, UUID tables and the exceptions of later calls against Model/TwinCache.v
     import twinleg
